@@ -325,7 +325,19 @@ def other_generators(run):
                         break
                 stat_bytes(run, f"TOTP.new|alg={alg}|size={size}", keys * 1, size or dsize) if len(keys) >= 300 else None
                 run.count("totp_new")
-        for ent in (64, 128, 256, 300):
+        for ent in list(range(1, 40)) + [64, 100, 128, 190, 192, 256, 300]:
+            for cs_name, cs in (("hex", "0123456789abcdef"), ("binary", "01"), ("base32", "ABCDEFGHIJKLMNOPQRSTUVWXYZ234567"), ("ascii94", ALPHABETS[94]), ("ten", ALPHABETS[10])):
+                b = src.bits
+                sec = T.generate_secret(ent, charset=cs)
+                have = len(sec) * math.log2(len(cs))
+                run.case(("generate_secret", cs_name, ent > 64), dict(helper="generate_secret", entropy=ent, charset=cs_name, length=len(sec)))
+                run.count("generate_secret_cases")
+                if have + 1e-9 < ent or any(c not in cs for c in sec) or src.bits - b + 1e-6 < ent:
+                    run.violation("C06|generate_secret|entropy-short", f"generate_secret({ent}, charset={cs_name}) -> {len(sec)} symbols = {have:.1f} bits (source asked for {src.bits - b:.0f} bits)",
+                                  dict(entropy=ent, charset=cs_name, value=sec))
+                if have - math.log2(len(cs)) >= ent + 1e-9:
+                    run.count("generate_secret_longer_than_minimal")      # allowed by the property (at least the requested entropy); only counted
+        for ent in (64, 128, 256, 300, 6, 24, 192, 191):
             b = src.bits
             s = T.generate_secret(ent)
             cs = "".join(sorted(set(s)))
